@@ -6,7 +6,7 @@ THEOREMS = ["C17_unix", "C17_string_denotes", "C17_format_total", "C17_now", "C1
 RELEASE = True
 OFFSET_MS = 946684800000
 LAST_9999 = 252455615999999
-RULE = ("UNIX/TSTR/TSFMT/NOW on boundary-biased u64 values (0, 1, leap days, month/year/century boundaries, the last ms of "
+RULE = ("TICK: dtn_time_now() under a ticking clock hook (successive clock reads see successive readings that straddle second / minute / day boundaries): the answer must lie between the first and the last reading taken; UNIX/TSTR/TSFMT/NOW on boundary-biased u64 values (0, 1, leap days, month/year/century boundaries, the last ms of "
         "year 9999 and its successor, 2^63, 2^64-946684800001..2^64-1, CBOR width boundaries) plus seeded uniform values; every "
         "case runs in a debug and a release build; a case is non-trivial when distinct (all inputs exercise the conversion)")
 TRUSTED_BASE = ["humantime 2.4.0 format_rfc3339 is modelled line by line (Model/DtnTime.v), tied by the K-time channel, not verified",
@@ -33,6 +33,10 @@ def corpus():
         out += ["UNIX %d" % t, "TSTR %d" % t, "TSFMT %d %d" % (t, t % 7)]
     out += ["TSFMT 0 18446744073709551615", "NOW %d" % OFFSET_MS, "NOW %d" % (OFFSET_MS + 1), "NOW %d" % (U64 - 1),
             "NOW 1790000000000"]
+    # ticking clock: the readings straddle a full-second / minute / day boundary between two clock reads
+    for base in (OFFSET_MS, 1790000000000, 1627483500000, OFFSET_MS + 86400000 * 366):
+        out += ["TICK %d %d" % (base + 999, base + 1000), "TICK %d %d %d" % (base + 999, base + 999, base + 1000),
+                "TICK %d %d" % (base + 59999, base + 60000), "TICK %d %d %d" % (base + 500, base + 501, base + 1500), "TICK %d" % (base + 999)]
     return out
 
 
@@ -57,6 +61,14 @@ def cases(rng, tier):
             out.append("TSFMT %d %d" % (t, rnd_u64(rng)))
         else:
             out.append("NOW %d" % max(OFFSET_MS, t))
+    for _ in range(300 if tier == "quick" else 30000):
+        c = max(OFFSET_MS, min(U64 - 5000, rng.choice([rnd_u64(rng), rng.randrange(OFFSET_MS, 2 ** 42)])))
+        c -= c % 1000
+        first = c + rng.choice([999, 999, 998, 500, 0])
+        rs = [first]
+        for _ in range(rng.randrange(0, 4)):
+            rs.append(rs[-1] + rng.choice([0, 1, 1, 2, 1000, 1001]))
+        out.append("TICK " + " ".join(str(r) for r in rs))
     return out
 
 
@@ -86,6 +98,15 @@ def oracle(line, out, mode):
         t, q = int(tok[1]), int(tok[2])
         if t <= LAST_9999 and out != "OK x" + (_rfc3339(t) + " %d" % q).encode().hex():
             return "timestamp display wrong"
+    elif tok[0] == "TICK":
+        # the clock moved from FIRST to LAST (the readings actually taken) while dtn_time_now() ran: its answer must lie in between
+        o = out.split(" ")
+        if o[0] != "OK" or len(o) != 8:
+            return "dtn_time_now() under a ticking clock: %s" % out[:40]
+        v, first, last = int(o[1]), int(o[5]), int(o[7])
+        if not (first - OFFSET_MS <= v <= last - OFFSET_MS):
+            return ("dtn_time_now() = %d is not a current time: the clock read %d .. %d (DTN %d .. %d) during the call"
+                    % (v, first, last, first - OFFSET_MS, last - OFFSET_MS))
     elif tok[0] == "NOW":
         c = int(tok[1])
         if c >= OFFSET_MS and out != "OK %d" % (c - OFFSET_MS):
@@ -95,6 +116,20 @@ def oracle(line, out, mode):
 
 def same(line, io, mo):
     return False
+
+
+def canon(out):
+    """TICK lines: how many clock reads a call takes is not part of the property (model: one); what is compared is whether the
+    answer lies between the first and the last reading taken"""
+    import runner
+    if out and out.startswith("OK ") and " READS " in out:
+        o = out.split(" ")
+        try:
+            v, first, last = int(o[1]), int(o[5]), int(o[7])
+            return "OK TICK " + ("current" if first - OFFSET_MS <= v <= last - OFFSET_MS else "not-current")
+        except (ValueError, IndexError):
+            return out
+    return runner.default_canon(out)
 
 
 def classify(line, out):
